@@ -540,3 +540,10 @@ where
         self.output.store_partial_lo_complex(vector, index);
     }
 }
+
+// Verification hook (add-only). Compiled only under `cargo kani` with `--cfg ejmahler_rustfft_verif`; a child module so that
+// the private accessor traits above are visible to the harnesses, which live outside this repository.
+#[cfg(all(kani, ejmahler_rustfft_verif))]
+mod verif_kani_sse_vector {
+    include!(concat!(env!("EJMAHLER_RUSTFFT_VERIF_DIR"), "/kani/harness_sse_vector.rs"));
+}
